@@ -474,8 +474,9 @@ def monitors(cfg, trace_seg_all, labels, end):
                     errs.append(("C14", "exception names failing node %s, its cause is the exception raised by %s" % (fnode, c.node)))
                 elif type(c).__name__ == "TawaziBaseException":
                     errs.append(("C14", "exception names failing node %s, its cause is not the original exception but %r" % (fnode, c)))
-            elif getattr(exc, "_verif_node", None) != fnode and not isinstance(exc, tz.NodeBoom):
-                # neither tawazi's wrapper nor the very exception the node's execution raised
+            elif not isinstance(exc, tz.NodeBoom):
+                # neither tawazi's wrapper nor the very exception the node's function raised (generated
+                # node functions fail with NodeBoom only)
                 errs.append(("C14", "node %s failed and the call raised %s: %s, which neither identifies the failing node nor is the node's own exception" % (fnode, type(exc).__name__, str(exc)[:80])))
     failed = {n for n, xs in xexit.items() if any(not x[1] for x in xs)}
     if failed:
